@@ -31,7 +31,7 @@ STUB = []
 ASSUMPTIONS = ["inputs valid (node indices in range, n_nodes>=1, non-negative weights for dijkstra)",
                "dyadic weights, so float sums are exact in both languages"]
 TIERS = {
-    "quick": {"runs": 160000, "block": 2000, "budget_s": 90},
+    "quick": {"runs": 320000, "block": 4000, "budget_s": 90},
     "thorough": {"runs": 3000000, "block": 4000, "budget_s": 900},
 }
 FUNCS = ["floyd_warshall", "bellman_ford", "dijkstra_edges", "bfs_edges", "dfs_edges", "kruskal", "pagerank_edges",
